@@ -37,13 +37,42 @@ def dispatch(pid: str, tier: str) -> int:
     raise MachineryError(f'no check for {pid}')
 
 
+def replay(pid: str, path: str) -> int:
+    """Judge the observation stored in a violation file again (same TLA+ module)."""
+    import json
+    from harness.core import tlc_judge
+    d = json.load(open(path))
+    rp = d.get('replay') or {}
+    rec = rp.get('record')
+    module = (rp.get('judge') or '').split()[0]
+    print(f"property {d.get('property')}: {d.get('summary')}")
+    if not rec or not module.startswith('Judge_'):
+        print(json.dumps(rp, indent=1, ensure_ascii=False)[:4000])
+        print('(no single record to judge again: the file describes the case)')
+        return 1
+    j = tlc_judge(module, [rec], cfg='Judge.cfg', shards=1)
+    for f in j.fails:
+        print('TLC: record', f.get('id'), 'fails', json.dumps(f.get('c'), ensure_ascii=False)[:2000])
+    for dv in j.devs:
+        print('TLC: record', dv.get('id'), 'is explained only by deviation', dv.get('d'))
+    if j.fails or j.devs:
+        print(f'VIOLATION property={pid} replay={path}')
+        return 1
+    print('the stored observation is explained by the specification')
+    return 0
+
+
 def main() -> int:
     ap = argparse.ArgumentParser()
     ap.add_argument('pid')
     ap.add_argument('--tier', default=os.environ.get('VERIF_TIER', 'quick'),
                     choices=['quick', 'thorough'])
+    ap.add_argument('--replay', help='a violation file written by an earlier run: the recorded '
+                    'observation is judged again by TLC and the case is printed')
     a = ap.parse_args()
     try:
+        if a.replay:
+            return replay(a.pid.upper(), a.replay)
         return dispatch(a.pid.upper(), a.tier)
     except MachineryError as e:
         print(f'MACHINERY-FAILURE property={a.pid}: {e}', file=sys.stderr)
